@@ -163,6 +163,25 @@ impl<'a> Model<'a> {
         Model { blocks }
     }
 
+    /// The entries of a block that belong in the by-params index, in file
+    /// order: non-inlined, first of each (obfuscated, args, original).
+    pub fn params_entries<'m>(b: &'m Block<'a>) -> Vec<&'m Entry<'a>> {
+        let mut seen: Vec<(&str, &str, &str)> = vec![];
+        let mut out = vec![];
+        for e in &b.entries {
+            if e.inlined_callee {
+                continue;
+            }
+            let key = (e.m.obf.as_str(), e.m.args.as_str(), e.m.orig.as_str());
+            if seen.contains(&key) {
+                continue;
+            }
+            seen.push(key);
+            out.push(e);
+        }
+        out
+    }
+
     pub fn class(&self, c: &str) -> Option<&'a str> {
         self.blocks.get(c).map(|b| b.orig)
     }
